@@ -164,6 +164,10 @@ def check(model, rep):
     want = ('lst', (el(0), el(1), el(2), ('slot', P6, 3), ('slot', P6, 4), ('slot', P6, 5)))
     rep.ob('R04.1', f6, 'from6DOF (rpy): elements 0..2 -> position, rotation vector of Rx(x[3]) @ Ry(x[4]) @ Rz(x[5])', got == want,
            'with rpy true the six-vector becomes %s; expected %s' % (eshow(got), eshow(want)))
+    # nothing a constructor form calls rewrites the translation it stored (mutators such as angleMod may only touch the rotation rows)
+    from .tmrows import rotation_only
+    for form in ('from3DOF', 'from6DOF', 'from7DOF'):
+        rotation_only(rep, 'R04.1', tm, M(form), 'tm.' + form, 'the constructed transform is not at the position it was given')
     f3, e3 = run_form('from3DOF', False)
     got = e3.stores.get('self.TAA', ('unk', 'no store'))
     ok = got[0] == 'lst' and len(got[1]) == 6 and all(zero_like(x) for x in got[1][:3]) and got[1][3:] == (el(0), el(1), el(2))
